@@ -124,6 +124,8 @@ func c18run(c *runner.Ctx) runner.Result {
 	var wops []*wop
 	var rops []*rop
 	var panics []string
+	var freshIssues []string
+	freshWrites := 0
 	var wg sync.WaitGroup
 	stop := int32(0)
 	idc := int64(0)
@@ -134,6 +136,35 @@ func c18run(c *runner.Ctx) runner.Result {
 			g := gen.New(c.Seed, fmt.Sprintf("C18/w%d", w), c.Case)
 			for i := 0; i < perWriter; i++ {
 				id := int(atomic.AddInt64(&idc, 1))
+				if g.P(1, 6) {
+					// first write to a brand-new bucket under a symbol that other writers create buckets under
+					// at the same time, then read it back: it must be queryable as soon as the write returned
+					fresh := fmt.Sprintf("NEW%d/1H/F%d", id%2, id)
+					v := int64(id) * 1000
+					var ferr error
+					var ft *ms.Table
+					p := ms.Recover(func() {
+						ferr = in.Write(fresh, mkCS(false, []int64{c18base + 3600}, []int64{v}, nil), false)
+						if ferr == nil {
+							ft, ferr = in.QueryAll(fresh)
+						}
+					})
+					mu.Lock()
+					freshWrites++
+					switch {
+					case p != "":
+						panics = append(panics, fmt.Sprintf("writer %d creating %s: %s", w, fresh, p))
+					case ferr != nil:
+						freshIssues = append(freshIssues, fmt.Sprintf("bucket %s, created by an acknowledged first write while other buckets of the symbol were being created, cannot be written/queried: %v", fresh, ferr))
+					default:
+						a, _ := ft.Cols["A"].([]int64)
+						if len(a) != 1 || a[0] != v {
+							freshIssues = append(freshIssues, fmt.Sprintf("bucket %s returns %v right after its acknowledged first write of %d", fresh, a, v))
+						}
+					}
+					mu.Unlock()
+					continue
+				}
 				key := keys[g.Intn(len(keys))]
 				op := &wop{id: id, key: key, variable: isVar(key)}
 				nr := 1 + g.Intn(2)
@@ -241,6 +272,10 @@ func c18run(c *runner.Ctx) runner.Result {
 	for _, p := range panics {
 		res.Violation("panic under concurrency: "+p, nil)
 	}
+	for _, f := range freshIssues {
+		res.Violation(f, nil)
+	}
+	res.Count("concurrent_bucket_creations", int64(freshWrites))
 	byV := map[int64]*wop{}
 	for _, w := range wops {
 		for _, v := range w.vs {
